@@ -255,3 +255,75 @@ Theorem C11_page_walk_refuted_case_twins :
   exists names k asc, sorted_by less_name names = true /\ (0 < k)%nat /\ page_walk names k asc = Hang.
 Proof. exact page_walk_refuted_case_twins. Qed.
 Print Assumptions C11_page_walk_refuted_case_twins.
+
+(* ------------------------------------------------------------------------------------------------ the by-class listing walk *)
+(* Vocabulary: [titles]/[names] list Title[:5] and the board name in the order of BSorted[by class];
+   [cursor_class t] = the bytes of Title[:4] before the first NUL (bbs.BoardSummary.BoardClass, the class half of the
+   next-cursor base64(class)@name) — blanks that pad a class shorter than 4 columns ("NB  ") are part of it;
+   [resolve_class titles names asc i] = FindBoardIdxByClass on the cursor made from entry i;
+   [distinct_class (combine titles names)] = two different slots have the same class and names equal up to case only
+   when both are vacated; [page_walk_class] (Model/C11.v) pages bbs.LoadGeneralBoards(.., BSORT_BY_CLASS) through its
+   own next-cursor. *)
+
+(* the next-cursor made from any visible board resolves to exactly that board, in both directions: for every table
+   sorted by class whose fifth title bytes are blanks (NULs in vacated slots) and whose (class, name) keys are distinct.
+   Classes of any length 0..4, blank- or NUL-padded, sharing prefixes or not. *)
+Theorem C11_cursor_resolves_by_class : forall titles names asc,
+  length titles = length names -> Forall (fun t => nth 4 t 0 = 32 \/ nth 4 t 0 = 0) titles ->
+  forallb bytes_ok titles = true -> forallb bytes_ok names = true ->
+  sorted_by less_class (combine titles names) = true -> distinct_class (combine titles names) = true ->
+  forall i, 0 <= i < lenZ names -> visible names i = true ->
+    find_by_class titles names (cursor_class (nth (Z.to_nat i) titles [])) (nth (Z.to_nat i) names []) asc = Ok (i + 1).
+Proof. exact cursor_resolves_class. Qed.
+Print Assumptions C11_cursor_resolves_by_class.
+
+(* paging the by-class listing through its next-cursor: under the same hypotheses, for every page size k >= 1 and both
+   directions, the walk terminates and its pages concatenate to the (1-based) positions in BSorted[by class] of the
+   visible boards, each once, in order, in ceil(V/k) pages (reading of the result: C11_page_walk_meaning) *)
+Theorem C11_page_walk_by_class : forall titles names k asc,
+  length titles = length names -> Forall (fun t => nth 4 t 0 = 32 \/ nth 4 t 0 = 0) titles ->
+  forallb bytes_ok titles = true -> forallb bytes_ok names = true ->
+  sorted_by less_class (combine titles names) = true -> distinct_class (combine titles names) = true -> (1 <= k)%nat ->
+  page_walk_class titles names k asc =
+  let V := filter (visible names) (if asc then zseq 0 (length names) else rev (zseq 0 (length names))) in
+  Ok (pages_of (length V) k, map (fun i => i + 1) V).
+Proof. exact page_walk_class_spec. Qed.
+Print Assumptions C11_page_walk_by_class.
+
+(* ... and for ANY visibility predicate that never shows a vacated slot ([page_walk_class_g vis] is the same walk with
+   the predicate as a parameter; the model's walk is the instance vis = visible names) *)
+Theorem C11_page_walk_by_class_any_visibility : forall titles names (vis : Z -> bool) k asc,
+  length titles = length names -> Forall (fun t => nth 4 t 0 = 32 \/ nth 4 t 0 = 0) titles ->
+  forallb bytes_ok titles = true -> forallb bytes_ok names = true ->
+  sorted_by less_class (combine titles names) = true -> distinct_class (combine titles names) = true ->
+  (forall i, vis i = true -> visible names i = true) -> (1 <= k)%nat ->
+  page_walk_class_g vis titles names k asc =
+  let V := filter vis (if asc then zseq 0 (length names) else rev (zseq 0 (length names))) in
+  Ok (pages_of (length V) k, map (fun i => i + 1) V).
+Proof. exact page_walk_class_any_visibility. Qed.
+Print Assumptions C11_page_walk_by_class_any_visibility.
+
+Theorem C11_page_walk_by_class_instance : forall titles names k asc,
+  page_walk_class titles names k asc = page_walk_class_g (visible names) titles names k asc.
+Proof. exact page_walk_class_is_g. Qed.
+Print Assumptions C11_page_walk_by_class_instance.
+
+(* two boards of one class whose names differ only in case: the cursor resolves to the other twin, the by-class listing
+   with page size 1 never ends. Known finding C11/listing-case-twins *)
+Theorem C11_page_walk_by_class_refuted_case_twins :
+  exists titles names k asc, sorted_by less_class (combine titles names) = true /\
+    Forall (fun t => nth 4 t 0 = 32 \/ nth 4 t 0 = 0) titles /\ (0 < k)%nat /\
+    page_walk_class titles names k asc = Hang.
+Proof. exact page_walk_class_refuted_case_twins. Qed.
+Print Assumptions C11_page_walk_by_class_refuted_case_twins.
+
+(* a non-blank fifth title byte: the cursor class is Title[:4], the search compares it with Title[:5], the cursor does
+   not resolve to its own board and boards are skipped. Known finding C11/find-by-class-nonblank-fifth-title-byte *)
+Theorem C11_page_walk_by_class_refuted_nonblank_title_byte :
+  exists titles names k asc, sorted_by less_class (combine titles names) = true /\
+    distinct_class (combine titles names) = true /\ (0 < k)%nat /\
+    page_walk_class titles names k asc <>
+    Ok (pages_of (length (filter (visible names) (if asc then zseq 0 (length names) else rev (zseq 0 (length names))))) k,
+        map (fun i => i + 1) (filter (visible names) (if asc then zseq 0 (length names) else rev (zseq 0 (length names))))).
+Proof. exact page_walk_class_refuted_nonblank_title_byte. Qed.
+Print Assumptions C11_page_walk_by_class_refuted_nonblank_title_byte.
